@@ -1324,7 +1324,7 @@ def oracle_join(h):
     host = last_state(h, i, 0)
     npeers = 1 + max([0] + [p for p in cfg])
     binds_ = {b["h"]: b["uuid"] for b in h.events if b["ev"] == "bind"}
-    away_written = set((e["peer"], binds_.get(e["h"]), e["ty"]) for e in h.events if e["ev"] == "away_write")
+    away_linked = set((e["peer"], binds_.get(e["h"])) for e in h.events if e["ev"] == "away_link")
     for p in range(1, npeers):
         st = last_state(h, i, p)
         if st is None or st.get("client_state") != "Connected":
@@ -1369,13 +1369,6 @@ def oracle_join(h):
                 if ty in ("HMat", "HMesh") and False:
                     continue
                 if a["comps"].get(ty) != b["comps"].get(ty):
-                    if who == "returning client" and (p, u, ty) in away_written:
-                        # D22: the snapshot the returning client asked for is built before the host applies what the client wrote while
-                        # its link was down (the backlog leaves one frame after the request): the host adopts the client's value,
-                        # the client is set back to the host's old one
-                        fails.append(("C03", "%s %d wrote while its link was down: after the join the host holds the client's value and the client the host's old one"
-                                      % (who, p), {"uuid": u[:8], "ty": ty}))
-                        continue
                     fails.append(("C03", "%s %d holds a different %s value than the host" % (who, p, "component"), {"uuid": u[:8], "ty": ty,
                                   "host": (a["comps"].get(ty) or "absent")[-12:], "peer": (b["comps"].get(ty) or "absent")[-12:]}))
                     break
@@ -1394,6 +1387,11 @@ def oracle_join(h):
                 elif who == "returning client" and pa_ is None and pb_ is not None and pb_ == held_when_left:
                     # the host's link went away (its parent was despawned later, the child left dangling): the snapshot cannot say so
                     fails.append(("C03", "%s %d keeps a parent link the host dropped while it was away" % (who, p), {"uuid": u[:8], "peer": b["parent"]}))
+                elif who == "returning client" and (p, u) in away_linked:
+                    # D22: a link set while away is announced when the client is Connected again, one frame after its
+                    # RequestInitialSync: the snapshot, built from the host's old link, and the announcement cross
+                    fails.append(("C03", "%s %d re-parented while its link was down: after the join its link and the host's have crossed" % (who, p),
+                                  {"uuid": u[:8], "host": a["parent"], "peer": b["parent"]}))
                 else:
                     fails.append(("C03", "%s %d has a different parent link than the host" % (who, p), {"uuid": u[:8], "host": a["parent"], "peer": b["parent"]}))
         for kind, sw in (("material", "materials"), ("image", "materials"), ("mesh", "meshes"), ("audio", "audios")):
